@@ -92,6 +92,26 @@ class RecSpanProcessor(SpanProcessor):
         return None
 
 
+class SyncTasks:
+    """stand-in for TaskHandler that runs a submitted task at once on the calling thread."""
+
+    def __init__(self):
+        self.errors = []
+
+    def submit_task(self, task, *args):
+        from concurrent.futures import Future
+        f = Future()
+        try:
+            f.set_result(task(*args))
+        except BaseException as e:  # noqa: B902
+            self.errors.append(e)
+            f.set_exception(e)
+        return f
+
+    def flush(self):
+        pass
+
+
 class MockCode:
     def __init__(self, filename, name):
         self.co_filename = filename
@@ -140,6 +160,13 @@ class Rig:
 
     def install(self, triggers):
         self.handler.new_config(list(triggers))
+
+    def install_via_service(self, triggers, new_hash='h1'):
+        """install through the real TracepointConfigService -> listener -> handler path (tasks run inline)."""
+        if getattr(self, 'tasks', None) is None:
+            self.tasks = SyncTasks()
+            self.config.tracepoints.set_task_handler(self.tasks)
+        self.config.tracepoints.update_new_config(1, new_hash, list(triggers))
 
     def effect_count(self):
         n = len(self.push.pushed) + len(self.logger.logged)
